@@ -185,7 +185,8 @@ def apply(op, T, w, ctl, e, via, newtag):
 
 
 COMP_OPS = ['add_component', 'remove_component', 'has_component', 'get_component', 'ref-get', 'ref-set', 'ref-del']
-NULLARY = ['get_components', 'delete', 'ref-set-sub', 'proc-set-sub', 'ref-set-subsub', 'proc-set-subsub']
+NULLARY_BASE = ['get_components', 'delete', 'ref-set-sub', 'proc-set-sub']
+NULLARY = NULLARY_BASE + ['ref-set-subsub', 'proc-set-subsub']     # grandchild instances (deep_sub entries)
 PROC_OPS = ['proc-get', 'proc-set', 'proc-del']
 
 
@@ -214,7 +215,7 @@ def apply_direct(op, w, tag, e=None):
         w.add_component(e, B(tag=tag))
 
 
-def h_twin(sp, steps=1, second_types=3, focus=None, ids=None):
+def h_twin(sp, steps=1, second_types=3, focus=None, ids=None, deep_sub=True):
     global IDS
     IDS = list(ids) if ids else list(DEFAULT_IDS)
     if ids:
@@ -268,7 +269,7 @@ def h_twin(sp, steps=1, second_types=3, focus=None, ids=None):
             op = sp.pick(FOCUS_COMP_OPS, 'op%d' % step)
             T = sp.pick([A, B], 't%d' % step)
         elif kind == 1:
-            op = sp.pick(NULLARY, 'op%d' % step) if focus != 'comps' else 'ref-set-sub'
+            op = sp.pick(NULLARY if deep_sub else NULLARY_BASE, 'op%d' % step) if focus != 'comps' else 'ref-set-sub'
             T = None
         else:
             op = sp.pick(PROC_OPS, 'op%d' % step)
@@ -309,7 +310,7 @@ class K(object):
         self.owner = owner      # serial number of the Prototype instance whose method built it (methods only)
 
 
-def h_proto(sp, n_types=3, same_name=True, falsy=True):
+def h_proto(sp, n_types=3, same_name=True, falsy=True, extra_levels=2):
     n = 1 + sp.choose(n_types, 'n-types')
     kinds = []
     for i in range(n):
@@ -391,7 +392,7 @@ def h_proto(sp, n_types=3, same_name=True, falsy=True):
     Base = type('Proto', (desper.Prototype,), base_ns)
     cls = type('SubProto', (Base,), sub_ns) if use_sub else Base
     # further empty levels below: the chain Proto <- SubProto <- Deeper1 (<- Deeper2) inherits everything unchanged
-    for lvl in range(sp.choose(3, 'extra-empty-levels')):
+    for lvl in range(sp.choose(extra_levels + 1, 'extra-empty-levels') if extra_levels else 0):
         cls = type('Deeper%d' % (lvl + 1), (cls,), {})
         sp.cover('prototype-chain-depth-3' if use_sub else 'prototype-chain-depth-2')
     # expected resolution, straight from the statement
@@ -571,6 +572,8 @@ def h_update(sp, max_listeners=3, frames=2, adder=False, raiser=False):
     sp.done()
 
 
+_PROTO_REQ = ['from-dict', 'from-method', 'from-sub-method', 'from-default', 'name-clash', 'sub-init_methods',
+              'type-listed-twice', 'falsy-dict-entry', 'second-instance-method']
 HARNESSES = {
     'twin': dict(fn=h_twin, nontrivial=COMP_OPS + NULLARY + PROC_OPS,
                  required=COMP_OPS + NULLARY + PROC_OPS + ['detached-controller', 'controller-of-empty-entity', 'moved-controller']),
@@ -585,13 +588,14 @@ TIERS = {
               ('twin', dict(steps=3, focus='procs'), dict(required=PROC_OPS + ['direct-world-op'])),
               ('twin', dict(steps=3, focus='comps'), dict(required=FOCUS_COMP_OPS + ['ref-set-sub', 'direct-world-op'])),
               ('twin', dict(steps=1, second_types=1, ids=(None, 0)), dict(required=COMP_OPS + NULLARY + ['unusual-ids'])),
-              ('proto', dict(n_types=2)), ('update', dict()),
+              ('proto', dict(n_types=2), dict(required=_PROTO_REQ + ['prototype-chain-depth-3', 'prototype-chain-depth-2'])), ('update', dict()),
               ('update', dict(max_listeners=2, frames=3, raiser=True), dict(required=['relayed', 'listener-raised', 'frame-after-failure']))],
     'thorough': [('update', dict(max_listeners=3, frames=3, adder=True), dict(required=['relayed', 'listener-adds-processor'])),
-                 ('twin', dict(steps=2)), ('twin', dict(steps=4, focus='procs'), dict(required=PROC_OPS + ['direct-world-op'])),
-                 ('twin', dict(steps=2, second_types=1, ids=(None, '')), dict(required=COMP_OPS + NULLARY + ['unusual-ids'])),
-                 ('twin', dict(steps=4, focus='comps'), dict(required=FOCUS_COMP_OPS + ['ref-set-sub', 'direct-world-op'])), ('proto', dict(n_types=3, falsy=False), dict(required=['from-dict', 'from-method', 'from-sub-method', 'from-default', 'name-clash', 'sub-init_methods', 'type-listed-twice', 'second-instance-method'])),
-                 ('proto', dict(n_types=2)), ('update', dict(max_listeners=4, frames=3)),
+                 ('twin', dict(steps=2, deep_sub=False), dict(required=COMP_OPS + NULLARY_BASE + PROC_OPS + ['detached-controller', 'controller-of-empty-entity', 'moved-controller'])),
+                 ('twin', dict(steps=1)), ('twin', dict(steps=4, focus='procs'), dict(required=PROC_OPS + ['direct-world-op'])),
+                 ('twin', dict(steps=2, second_types=1, ids=(None, ''), deep_sub=False), dict(required=COMP_OPS + NULLARY_BASE + ['unusual-ids'])),
+                 ('twin', dict(steps=4, focus='comps'), dict(required=FOCUS_COMP_OPS + ['ref-set-sub', 'direct-world-op'])), ('proto', dict(n_types=3, falsy=False, extra_levels=0), dict(required=['from-dict', 'from-method', 'from-sub-method', 'from-default', 'name-clash', 'sub-init_methods', 'type-listed-twice', 'second-instance-method'])),
+                 ('proto', dict(n_types=2), dict(required=_PROTO_REQ + ['prototype-chain-depth-3', 'prototype-chain-depth-2'])), ('update', dict(max_listeners=4, frames=3)),
                  ('update', dict(max_listeners=3, frames=4, raiser=True), dict(required=['relayed', 'listener-raised', 'frame-after-failure']))],
 }
 BUDGET_S = {'quick': 150, 'thorough': 1500}
